@@ -9,6 +9,9 @@ from __future__ import annotations
 import random
 
 # ----------------------------------------------------------------- numbers
+# non-zero values that np.isclose / allclose-style tests take for zero
+TINY = [1.2246467991473532e-16, -1.2246467991473532e-16, 3e-9, -1e-12, 5e-324, -5e-324, 1e-300, 2.220446049250313e-16, 9.9e-9]
+
 NICE_F = [0.1, 0.25, 0.5, 1.0, 1.5, 2.0, 2.5, 3.0, 4.0, 5.0, 7.5, 10.0, 12.5, 20.0, 31.4, 62.8, 125.66]
 
 
@@ -165,8 +168,10 @@ def gen_matrix(rng, n, complex_p=0.5):
         if r < 0.3:
             return rng.choice([0, 1, -1, 0.0, 1.0, 0.5])
         if r < 0.3 + complex_p * 0.7:
-            re = rng.choice([0.0, 1.0, -0.5, 0.25, round(rng.uniform(-2, 2), 3)])
+            re = rng.choice([0.0, 1.0, -0.5, 0.25, -1.0, round(rng.uniform(-2, 2), 3)] + ([rng.choice(TINY)] if rng.random() < 0.15 else []))
             im = rng.choice([0.0, 1.0, -1.0, 0.5, round(rng.uniform(-2, 2), 3)])
+            if rng.random() < 0.25:
+                im = rng.choice(TINY)
             return {"re": re, "im": im}
         return round(rng.uniform(-2, 2), 3)
 
@@ -383,9 +388,12 @@ def gen_scalar(rng):
     if r < 0.35:
         return rng.choice([1.0, 0.5, -1.0, 2, 0.25, 0, 1])
     if r < 0.75:
+        im = rng.choice([0.0, 1.0, -1.0, 0.5, -0.0, round(rng.uniform(-1, 1), 3)])
+        if rng.random() < 0.25:
+            im = rng.choice(TINY)
         return {
-            "re": rng.choice([0.0, 1.0, -0.5, 0.5, round(rng.uniform(-1, 1), 3)]),
-            "im": rng.choice([0.0, 1.0, -1.0, 0.5, -0.0, round(rng.uniform(-1, 1), 3)]),
+            "re": rng.choice([0.0, 1.0, -0.5, 0.5, -1.0, round(rng.uniform(-1, 1), 3)] + ([rng.choice(TINY)] if rng.random() < 0.15 else [])),
+            "im": im,
         }
     return round(rng.uniform(-2, 2), 4)
 
